@@ -18,14 +18,26 @@ TRUSTED = [
     "(settings tree obtained by introspection of the real objects: declared properties with/without setter, "
     "vars(), dict items, model arguments, models of a group; the setters' range guards are looked up in the regenerated table)",
     "modelled, not verified: Python attribute lookup order (data descriptor, instance dict, class attribute, "
-    "__getattr__), str.split/find/slicing, ast.literal_eval on the literal subset",
+    "__getattr__), str.split/find/slicing, ast.literal_eval on the literal subset, truthiness / `is True` / `== True` on "
+    "the values a flag can hold",
+    "translator/c08.py also reads the test ModelGroup.__iter__ applies to a model's enabled flag, the test "
+    "Observation.validate_steps applies to it, and the names Arguments.__setattr__ hands to object.__setattr__ (fail closed); "
+    "probes/verif_probes_c08.py (recording probe models: which model ran, with which argument values)",
 ]
 ASSUME = [
     "private names occur as LAST key component only, and only those that do not exist or are not the backing field of a "
     "setting listed in the snapshot: a private backing field (_row / row, _phasing / phasing, Arguments._arguments) and a "
     "list index (models.0 / <model name>) are a second key for a setting that already has one, and the tree model has no "
     "sharing inside one processor; such keys are outside the modelled key space",
-    "scalar leaves expose no attributes (int.real, str.upper ... are not settings and are not generated)",
+    "scalar leaves expose no attributes (int.real, str.upper ... are not settings and are not generated); the same holds "
+    "for a method object: a model called like a method of ModelGroup (`run`) is hidden by that method, and keys through "
+    "it are generated with public components only (every Python object, a method included, has `__class__`, `__eq__` ...)",
+    "class-level names used as last component (methods, class constants, read-only properties holding a plain value) are "
+    "listed by introspection of the implementation under test (generator input only; static table as fallback); "
+    "properties of Detector that hold data containers (photon, pixel, ...) or whose getter raises, and `numbytes` (reading "
+    "it changes private caches), are not used as key components",
+    "the effect of a sweep is observed on non-dask runs (product, sequential, custom mode), one readout time per run, with "
+    "every model replaced by a recording probe; models of one group have distinct names",
     "APD avalanche_gain / pixel_reset_voltage / common_voltage are a documented coupled triple: when one of them is "
     "assigned, the triple and its derived caches are not compared",
     "literal subset: decimal integers, decimals/exponents (dyadic values, compared as exact rationals), True/False/None, "
@@ -1630,13 +1642,21 @@ META = dict(
         "on): under the copy policy regenerated from Processor.__deepcopy__ / ModelGroup.__deepcopy__ / the four copying "
         "entry points no object is shared and the source keeps its whole settings tree; validate_steps rejects an "
         "undeclared / disabled-model key at any position and accepts every admitted key, the enabled flag included "
-        "(C08-enabled-sweep repaired; accepting non-settings is still open and refuted by a proved witness); eval_entry "
+        "(C08-enabled-sweep repaired; accepting non-settings is still open and refuted by a proved witness); whatever "
+        "exists under a key without being an assignable setting (a method or constant of the object's class, e.g. an "
+        "undeclared argument called like a Mapping method, a read-only property, an object) is refused by set(); has() "
+        "confirms only keys whose whole path can be read (C08-has-none repaired); the two readers of a model's enabled "
+        "flag — validation of a sweep and the group iterator that executes models, both tests regenerated from the source — "
+        "agree on every value the flag can hold, hence every model addressed by an accepted sweep is executed; eval_entry "
         "round trip for all integers, mantissa-e-exponent decimals, booleans, None and bare words. The model is tied to "
         "the code by a fail-closed translator (copy policy) and by evaluating it inside Coq against the real Processor on "
         "full before/after settings snapshots (all fields of the 4 detector types, every group/model/argument/flag, "
         "vars() of every object) for valid, misspelt, truncated and extended keys — on the processor itself and on copies "
         "derived through five real entry points, with source, sibling copy, later copy and object identities compared — "
-        "against the real eval_entry on generated texts and the real Observation.validate_steps; the implementation's "
+        "against the real eval_entry on generated texts and the real Observation.validate_steps, and by RUNNING sweeps "
+        "(product, sequential, custom mode) whose models are recording probes: a refused key must stop the sweep before any "
+        "model executes, an accepted sweep must deliver every swept value to the model it addresses (enabled flags holding "
+        "non-bool values, arriving by configuration, Processor.set or override text, included); the implementation's "
         "observations are judged inside Coq against the specification. That the implementation behaves like the model is "
         "established by this correspondence, i.e. by testing."),
     level_note=(
